@@ -596,6 +596,31 @@ pub open spec fn sinv_skip<K: Ord, V>(buf: Buf<K, V>, g: G, root: u32, skip: int
     &&& sorted_skip(buf, g, skip)
 }
 
+
+pub proof fn lemma_links_skip<K: Ord, V>(buf: Buf<K, V>, g: G, root: u32, skip: int, i: int)
+    requires sinv_skip(buf, g, root, skip), in_tree(buf, g, i),
+    ensures
+        node_ok(buf, g, root, i),
+        buf.len() < EMPTY_REF, g.ng.len() == buf.len(),
+{
+    reveal(sinv_skip);
+    assert(node_ok(buf, g, root, i));
+}
+
+
+// a leaf in a tree of at least two entries is not the root
+pub proof fn lemma_leaf_not_root<K: Ord, V>(buf: Buf<K, V>, g: G, root: u32, i: int)
+    requires sinv(buf, g, root), in_tree(buf, g, i), buf[i].left == EMPTY_REF, buf[i].right == EMPTY_REF, g.ord.len() >= 2,
+    ensures
+        buf[i].parent != EMPTY_REF, link_in_tree(buf, g, buf[i].parent),
+        buf[buf[i].parent as int].left as int == i || buf[buf[i].parent as int].right as int == i,
+        (buf[i].parent as int) < buf.len(),
+{
+    reveal(sinv);
+    assert(node_ok(buf, g, root, i));
+    if buf[i].parent == EMPTY_REF { assert(node_ok(buf, g, root, root as int)); }
+}
+
 pub proof fn lemma_sinv_to_skip<K: Ord, V>(buf: Buf<K, V>, g: G, root: u32, skip: int)
     requires sinv(buf, g, root),
     ensures sinv_skip(buf, g, root, skip),
@@ -979,6 +1004,7 @@ pub proof fn lemma_nil_subst<K: Ord, V>(b0: Buf<K, V>, g0: G, r0: u32, d: int, b
     ensures
         g1 == (G { ord: g0.ord.update(g0.ng[d].pos, 0u32),
                    ng: g0.ng.update(0, NG { pos: g0.ng[d].pos, a: g0.ng[d].a, b: g0.ng[d].b, bh: g0.ng[d].bh }).update(d, NG { pos: -1, ..g0.ng[d] }) }),
+        g1.ord.len() >= 2,
         sinv(b1, g1, r0), cinv_def(b1, g1, 0), in_tree(b1, g1, 0), nil_under(g1, 0),
         !in_tree(b1, g1, d),
         forall|i: int| i != d && i != 0 ==> (#[trigger] in_tree(b1, g1, i) == in_tree(b0, g0, i)),
@@ -994,6 +1020,7 @@ pub proof fn lemma_nil_subst<K: Ord, V>(b0: Buf<K, V>, g0: G, r0: u32, d: int, b
     assert(node_ok(b0, g0, r0, p));
     assert(color_ok(b0, g0, d, -1));
     assert(color_ok(b0, g0, p, -1));
+    assert(g0.ord[g0.ng[p].pos] as int == p && g0.ng[p].pos != q);
     assert(g0.ord[q] as int == d);
     assert(p != 0) by { assert(in_tree(b0, g0, p)); }
     assert forall|i: int| i != d && i != 0 implies (#[trigger] in_tree(b1, g1, i) == in_tree(b0, g0, i)) by {
@@ -1557,6 +1584,15 @@ pub proof fn lemma_height<K: Ord, V>(buf: Buf<K, V>, g: G, root: u32, i: int, fu
     if r != EMPTY_REF { assert(color_ok(buf, g, r as int, -1)); lemma_height(buf, g, root, r as int, (fuel - 1) as nat); }
     assert(pow2(0) == 1);
     if g.ng[i].bh > 0 { assert(pow2(g.ng[i].bh as nat) == 2 * pow2((g.ng[i].bh - 1) as nat)); }
+    // unfold the height of i once
+    assert(fuel >= 1 && (i as u32) as int == i && i < buf.len());
+    let hl = height_f(buf, l, (fuel - 1) as nat);
+    let hr = height_f(buf, r, (fuel - 1) as nat);
+    assert(height_f(buf, i as u32, fuel) == 1 + (if hl >= hr { hl } else { hr }));
+    assert(l == EMPTY_REF ==> hl == 0);
+    assert(r == EMPTY_REF ==> hr == 0);
+    if l != EMPTY_REF { assert(hl <= 2 * g.ng[l as int].bh + (if buf[l as int].color == Color::Red { 1int } else { 0int })); }
+    if r != EMPTY_REF { assert(hr <= 2 * g.ng[r as int].bh + (if buf[r as int].color == Color::Red { 1int } else { 0int })); }
 }
 
 
@@ -3606,7 +3642,7 @@ impl<K: Copy + Ord + Default, V: Clone + Default> MapTree<K, V> {
         // if two children replace node with it left minimum
         if nd_left != EMPTY_REF && nd_right != EMPTY_REF {
             let successor_index = self.find_left_minimum(nd_right);
-            proof { reveal(sinv); assert(node_ok(self.store.buffer@, self.g@, self.root, index as int)); lemma_links(self.store.buffer@, self.g@, self.root, successor_index as int); }
+            proof { lemma_links(self.store.buffer@, self.g@, self.root, index as int); lemma_links(self.store.buffer@, self.g@, self.root, successor_index as int); }
             let successor = self.node(successor_index);
             let entity = successor.entity.clone();
             nd_parent = successor.parent;
@@ -3625,9 +3661,8 @@ impl<K: Copy + Ord + Default, V: Clone + Default> MapTree<K, V> {
         let ghost d = delete_index as int;
         proof {
             assert(move_rel(sm.0, old(self).store.buffer@, old(self).g@, index as int, d));
-            reveal(sinv_skip);
-            assert(node_ok(sm.0, sm.1, sm.2, d));
-            if nd_parent != EMPTY_REF { assert(node_ok(sm.0, sm.1, sm.2, nd_parent as int)); }
+            lemma_links_skip(sm.0, sm.1, sm.2, sm.1.ng[d].pos, d);
+            if nd_parent != EMPTY_REF { lemma_links_skip(sm.0, sm.1, sm.2, sm.1.ng[d].pos, nd_parent as int); }
         }
 
         // only one child can be!
@@ -3671,8 +3706,7 @@ impl<K: Copy + Ord + Default, V: Clone + Default> MapTree<K, V> {
                 proof {
                     lemma_same_ord_membership(s2.0, s2.1, s2.2, s3.0, s3.1, s3.2);
                     lemma_sinv_to_skip(s2.0, s2.1, s2.2, s2.1.ng[0].pos);
-                    reveal(sinv);
-                    assert(node_ok(s2.0, s2.1, s2.2, 0));
+                    lemma_leaf_not_root(s2.0, s2.1, s2.2, 0);
                 }
                 self.fix_parents_nil_child();
                 proof {
